@@ -596,4 +596,258 @@ theorem replay_closed {seg : List LogItem} {fd : Fd} : ∀ {l : List Fd} {n : Na
           · simp at hm; exact absurd hm ho.1
         · cases h
 
+/-! ### the driver step -/
+
+/-- at most one call failed, and it is one of `P`; a normal return made no failing call -/
+def OneQ {α : Type} (P : Sys → Prop) (r : Except Exn α) (seg : List LogItem) : Prop :=
+  match r with
+  | .ok _ => failsOf seg = []
+  | .error _ => ∃ c code, failsOf seg = [(c, code)] ∧ P c
+
+theorem OneQ_bind {α β : Type} {P : Sys → Prop} {m : M α} {k : α → M β} (hm : Lg m (OneQ P)) (hk : ∀ a, Lg (k a) (OneQ P)) :
+    Lg (m >>= k) (OneQ P) := by
+  apply Lg_bind hm hk
+  · intro e s h; exact h
+  · intro a s1 r s2 h1 h2
+    simp only [OneQ] at h1
+    cases r with
+    | ok b => simp only [OneQ] at h2 ⊢; rw [failsOf_append, h1, h2]; rfl
+    | error e =>
+      obtain ⟨c, code, h2, hp⟩ := h2
+      exact ⟨c, code, by rw [failsOf_append, h1, h2]; rfl, hp⟩
+
+theorem OneQ_sysE {P : Sys → Prop} {c : Sys} (hc : P c) (fd : Fd) : Lg (sysE c fd) (OneQ P) := by
+  apply (Lg_sysE c fd).weaken
+  intro r seg h
+  rcases h with ⟨h1, h2⟩ | ⟨e, h1, h2⟩
+  · subst h1 h2; rfl
+  · subst h1 h2; exact ⟨c, e, by simp [failsOf, LogItem.fail?], hc⟩
+
+theorem OneQ_pure {α : Type} {P : Sys → Prop} (a : α) : Lg (pure a : M α) (OneQ P) :=
+  (Lg_pure a).weaken (by intro r seg ⟨h1, h2⟩; subst h1 h2; rfl)
+
+/-- what one socket task leaves in the log, and which events it reports -/
+def TaskQ (s : ASock) (r : Except Exn StepOut) (seg : List LogItem) : Prop :=
+  ∃ out, r = .ok out ∧
+    ((failsOf seg = [] ∧ ∀ ev ∈ out.evs, ev.reportsFailure = false) ∨
+     (out.fds = [] ∧ ∃ c code rest, failsOf seg = (c, code) :: rest ∧
+       ((c = .recv ∧ out.evs = [.disconnect s.fd]) ∨
+        ((c = .send ∨ c = .sendto) ∧ out.evs = [.futureExn s.fd]) ∨
+        ((c = .recvfrom ∨ c = .accept ∨ c = .fcntl ∨ c = .listen) ∧ out.evs = [.discarded s.fd] ∧
+          s.kind ≠ .tcp ∧ 0 < s.rx))))
+
+theorem Lg_task_sys (c : Sys) (fd : Fd) (bad good : StepOut) :
+    Lg (do match ← sys c (some fd) with
+          | some _ => pure bad
+          | none => pure good)
+      (fun r seg => (∃ e, r = .ok bad ∧ seg = [.call c (some fd) (some e) none]) ∨
+        (r = .ok good ∧ seg = [.call c (some fd) none none])) := by
+  apply Lg_bind (Lg_sys c (some fd))
+    (Q2 := fun f r seg => seg = [] ∧ match f with | some _ => r = .ok bad | none => r = .ok good)
+  · intro f
+    cases f with
+    | some e => exact (Lg_pure _).weaken (by intro r seg ⟨h1, h2⟩; exact ⟨h2, h1⟩)
+    | none => exact (Lg_pure _).weaken (by intro r seg ⟨h1, h2⟩; exact ⟨h2, h1⟩)
+  · intro e s ⟨f, h, _⟩; cases h
+  · intro f s1 r s2 ⟨f', h1, h2⟩ ⟨h3, h4⟩
+    cases h1
+    subst h2 h3
+    cases f with
+    | some e => exact .inl ⟨e, h4, rfl⟩
+    | none => exact .inr ⟨h4, rfl⟩
+
+theorem Lg_socketTask (d : DSt) (s : ASock) : Lg (socketTask d s) (TaskQ s) := by
+  unfold socketTask
+  split
+  · rename_i hrx
+    cases hk : s.kind with
+    | tcp =>
+      simp only
+      apply (Lg_task_sys _ _ _ _).weaken
+      intro r seg h
+      rcases h with ⟨e, h1, h2⟩ | ⟨h1, h2⟩
+      · subst h1 h2
+        exact ⟨_, rfl, .inr ⟨rfl, .recv, e, [], by simp [failsOf, LogItem.fail?], .inl ⟨rfl, rfl⟩⟩⟩
+      · subst h1 h2
+        exact ⟨_, rfl, .inl ⟨by simp [failsOf, LogItem.fail?], by simp [Ev.reportsFailure]⟩⟩
+    | udp =>
+      simp only
+      apply (Lg_task_sys _ _ _ _).weaken
+      intro r seg h
+      rcases h with ⟨e, h1, h2⟩ | ⟨h1, h2⟩
+      · subst h1 h2
+        exact ⟨_, rfl, .inr ⟨rfl, .recvfrom, e, [], by simp [failsOf, LogItem.fail?],
+          .inr (.inr ⟨.inl rfl, rfl, by simp [hk], hrx⟩)⟩⟩
+      · subst h1 h2
+        exact ⟨_, rfl, .inl ⟨by simp [failsOf, LogItem.fail?], by simp [Ev.reportsFailure]⟩⟩
+    | acc =>
+      simp only
+      have hbody : ∀ c, Lg (guardFd c (do setNonBlocking c; sysE .listen s.fd; pure [c]))
+          (fun r seg => match r with
+            | .ok _ => failsOf seg = []
+            | .error _ => ∃ cc code, failsOf seg = [(cc, code)] ∧ (cc = .fcntl ∨ cc = .listen)) := by
+        intro c
+        have hb : Lg (do setNonBlocking c; sysE .listen s.fd; pure [c]) (OneQ fun cc => cc = .fcntl ∨ cc = .listen) :=
+          OneQ_bind (OneQ_bind (OneQ_sysE (.inl rfl) c) fun _ => OneQ_sysE (.inl rfl) c) fun _ =>
+            OneQ_bind (OneQ_sysE (.inr rfl) s.fd) fun _ => OneQ_pure _
+        apply (Lg_guard hb).weaken
+        intro r seg h
+        cases r with
+        | ok a => exact h
+        | error e =>
+          obtain ⟨s0, hs, cc, code, hf, hp⟩ := h
+          subst hs
+          exact ⟨cc, code, by rw [failsOf_append, hf]; rfl, hp⟩
+      apply Lg_bind (Lg_sysOpen .accept (some s.fd))
+        (Q2 := fun x r seg => match x with
+          | .error _ => seg = [] ∧ r = .ok { d := d, evs := [.discarded s.fd] }
+          | .ok _ => ∃ out, r = .ok out ∧
+              ((failsOf seg = [] ∧ ∀ ev ∈ out.evs, ev.reportsFailure = false) ∨
+               (out.fds = [] ∧ out.evs = [.discarded s.fd] ∧ ∃ cc code, failsOf seg = [(cc, code)] ∧ (cc = .fcntl ∨ cc = .listen))))
+      · intro x
+        cases x with
+        | error e => exact (Lg_pure _).weaken (by intro r seg ⟨h1, h2⟩; exact ⟨h2, h1⟩)
+        | ok c =>
+          simp only
+          apply Lg_bind (Lg_tryM (hbody c))
+            (Q2 := fun t r seg => seg = [] ∧ ∃ out, r = .ok out ∧ match t with
+              | .error _ => out.evs = [.discarded s.fd] ∧ out.fds = []
+              | .ok _ => out.evs = [.connect s.fd c])
+          · intro t
+            cases t with
+            | error e => exact (Lg_pure _).weaken (by intro r seg ⟨h1, h2⟩; exact ⟨h2, _, h1, rfl, rfl⟩)
+            | ok a => exact (Lg_pure _).weaken (by intro r seg ⟨h1, h2⟩; exact ⟨h2, _, h1, rfl⟩)
+          · intro e s0 ⟨r0, h, _⟩; cases h
+          · intro t s1 r s2 ⟨r0, h1, h2⟩ ⟨h3, out, h4, h5⟩
+            cases h1
+            subst h3
+            simp only [List.append_nil]
+            cases t with
+            | error e => exact ⟨out, h4, .inr ⟨h5.2, h5.1, h2⟩⟩
+            | ok a => exact ⟨out, h4, .inl ⟨h2, by simp only at h5; rw [h5]; simp [Ev.reportsFailure]⟩⟩
+      · intro e s0 h
+        rcases h with ⟨_, h, _⟩ | ⟨_, h, _⟩ <;> cases h
+      · intro x s1 r s2 h1 h2
+        rcases h1 with ⟨e, h1, hs⟩ | ⟨n, h1, hs⟩
+        · cases h1
+          obtain ⟨h3, h4⟩ := h2
+          subst hs h3
+          exact ⟨_, h4, .inr ⟨rfl, .accept, e, [], by simp [failsOf, LogItem.fail?],
+            .inr (.inr ⟨.inr (.inl rfl), rfl, by simp [hk], hrx⟩)⟩⟩
+        · cases h1
+          subst hs
+          obtain ⟨out, h3, h4⟩ := h2
+          refine ⟨out, h3, ?_⟩
+          have hf : ∀ s2 : List LogItem, failsOf ([LogItem.call .accept (some s.fd) none (some n)] ++ s2) = failsOf s2 := by
+            intro s2; rfl
+          rcases h4 with ⟨h4, h5⟩ | ⟨h4, h5, cc, code, h6, h7⟩
+          · exact .inl ⟨by rw [hf, h4], h5⟩
+          · refine .inr ⟨h4, cc, code, [], by rw [hf, h6], .inr (.inr ⟨?_, h5, by simp [hk], hrx⟩)⟩
+            rcases h7 with h7 | h7
+            · exact .inr (.inr (.inl h7))
+            · exact .inr (.inr (.inr h7))
+  · cases hk : s.kind with
+    | tcp =>
+      simp only
+      apply (Lg_task_sys _ _ _ _).weaken
+      intro r seg h
+      rcases h with ⟨e, h1, h2⟩ | ⟨h1, h2⟩
+      · subst h1 h2
+        exact ⟨_, rfl, .inr ⟨rfl, .send, e, [], by simp [failsOf, LogItem.fail?], .inr (.inl ⟨.inl rfl, rfl⟩)⟩⟩
+      · subst h1 h2
+        exact ⟨_, rfl, .inl ⟨by simp [failsOf, LogItem.fail?], by simp [Ev.reportsFailure]⟩⟩
+    | udp =>
+      simp only
+      apply Lg_bind (Lg_tryM (Lg_sysAddrMsg .sendto s.fd))
+        (Q2 := fun t r seg => seg = [] ∧ ∃ out, r = .ok out ∧ out.fds = [] ∧ match t with
+          | .error _ => out.evs = [.futureExn s.fd]
+          | .ok _ => out.evs = [.futureValue s.fd])
+      · intro t
+        cases t with
+        | error e => exact (Lg_pure _).weaken (by intro r seg ⟨h1, h2⟩; exact ⟨h2, _, h1, rfl, rfl⟩)
+        | ok a => exact (Lg_pure _).weaken (by intro r seg ⟨h1, h2⟩; exact ⟨h2, _, h1, rfl, rfl⟩)
+      · intro e s0 ⟨r0, h, _⟩; cases h
+      · intro t s1 r s2 ⟨r0, h1, h2⟩ ⟨h3, out, h4, hfd, h7⟩
+        cases h1
+        subst h3
+        simp only [List.append_nil]
+        rcases h2 with ⟨h5, h6⟩ | ⟨e, h5, h6⟩ | ⟨e, g, h5, h6⟩
+        · subst h5 h6
+          simp only at h7
+          exact ⟨out, h4, .inl ⟨by simp [failsOf, LogItem.fail?], by rw [h7]; simp [Ev.reportsFailure]⟩⟩
+        · subst h5 h6
+          exact ⟨out, h4, .inr ⟨hfd, .sendto, e, [], by simp [failsOf, LogItem.fail?], .inr (.inl ⟨.inr rfl, h7⟩)⟩⟩
+        · subst h5 h6
+          exact ⟨out, h4, .inr ⟨hfd, .sendto, e, [(.getnameinfo, g)], by simp [failsOf, LogItem.fail?], .inr (.inl ⟨.inr rfl, h7⟩)⟩⟩
+    | acc =>
+      simp only
+      apply (Lg_pure _).weaken
+      intro r seg ⟨h1, h2⟩
+      subst h1 h2
+      exact ⟨_, rfl, .inl ⟨rfl, by simp⟩⟩
+
+/-- what `Driver::Step` leaves in the log: an exception out of `Step` is a failed `poll` (or the failed
+`recvfrom` of the signalling pipe); otherwise a failed call is reported by the disconnect handler (`recv`),
+the send future (`send` / `sendto`), or - only for a readable UDP socket / acceptor - dropped -/
+def DriveQ (d : DSt) (r : Except Exn StepOut) (seg : List LogItem) : Prop :=
+  match r with
+  | .error e => ∃ c code, failsOf seg = [(c, code)] ∧ e = .system code ∧ (c = .poll ∨ (c = .recvfrom ∧ 0 < d.bumps))
+  | .ok out =>
+    (failsOf seg = [] ∧ ∀ ev ∈ out.evs, ev.reportsFailure = false) ∨
+    (out.fds = [] ∧ ∃ c code rest fd, failsOf seg = (c, code) :: rest ∧
+      ((c = .recv ∧ out.evs = [.disconnect fd]) ∨
+       ((c = .send ∨ c = .sendto) ∧ out.evs = [.futureExn fd]) ∨
+       ((c = .recvfrom ∨ c = .accept ∨ c = .fcntl ∨ c = .listen) ∧ out.evs = [.discarded fd] ∧
+          d.bumps = 0 ∧ ∃ s ∈ d.socks, s.kind ≠ .tcp ∧ 0 < s.rx)))
+
+theorem Lg_driverStep (d : DSt) : Lg (driverStep d) (DriveQ d) := by
+  unfold driverStep
+  apply Lg_bind (Lg_sysE .poll d.pipeTo) (Q2 := fun _ => DriveQ d)
+  · intro _
+    split
+    · rename_i hb
+      apply Lg_bind (Lg_sysE .recvfrom d.pipeTo) (Q2 := fun _ r seg => seg = [] ∧ r = .ok { d := { d with bumps := d.bumps - 1 } })
+      · intro _
+        exact (Lg_pure _).weaken (by intro r seg ⟨h1, h2⟩; exact ⟨h2, h1⟩)
+      · intro e s h
+        rcases h with ⟨h, _⟩ | ⟨e', h1, h2⟩
+        · cases h
+        · cases h1; subst h2
+          exact ⟨.recvfrom, e', by simp [failsOf, LogItem.fail?], rfl, .inr ⟨rfl, hb⟩⟩
+      · intro _ s1 r s2 h1 ⟨h2, h3⟩
+        rcases h1 with ⟨_, h1⟩ | ⟨_, h, _⟩
+        · subst h1 h2 h3
+          exact .inl ⟨by simp [failsOf, LogItem.fail?], by simp⟩
+        · cases h
+    · rename_i hb
+      split
+      · apply (Lg_pure _).weaken
+        intro r seg ⟨h1, h2⟩
+        subst h1 h2
+        exact .inl ⟨rfl, by simp⟩
+      · rename_i s hfind
+        apply (Lg_socketTask d s).weaken
+        intro r seg ⟨out, h1, h2⟩
+        subst h1
+        rcases h2 with h2 | ⟨h2, c, code, rest, h3, h4⟩
+        · exact .inl h2
+        · refine .inr ⟨h2, c, code, rest, s.fd, h3, ?_⟩
+          rcases h4 with h4 | h4 | ⟨h4, h5, h6, h7⟩
+          · exact .inl h4
+          · exact .inr (.inl h4)
+          · exact .inr (.inr ⟨h4, h5, by omega, s, List.mem_of_find?_eq_some hfind, h6, h7⟩)
+  · intro e s h
+    rcases h with ⟨h, _⟩ | ⟨e', h1, h2⟩
+    · cases h
+    · cases h1; subst h2
+      exact ⟨.poll, e', by simp [failsOf, LogItem.fail?], rfl, .inl rfl⟩
+  · intro _ s1 r s2 h1 h2
+    rcases h1 with ⟨_, h1⟩ | ⟨_, h, _⟩
+    · subst h1
+      have hf : failsOf ([LogItem.call .poll (some d.pipeTo) none none] ++ s2) = failsOf s2 := rfl
+      cases r with
+      | error e => simp only [DriveQ] at h2 ⊢; rw [hf]; exact h2
+      | ok out => simp only [DriveQ] at h2 ⊢; rw [hf]; exact h2
+    · cases h
+
 end SockModel.Fd
